@@ -66,6 +66,8 @@ def rand_frame(rng: random.Random, n: int, *, cats=("A", "B", "G", "S"), nums=("
         ix = {"kind": "labels", "values": [f"r{rng.randint(0, max(1, n // 2))}" for _ in range(n)]}
     elif index == "ints":
         ix = {"kind": "labels", "values": rng.sample(range(1000), n)}
+    elif index == "perm":  # a permutation of 0..n-1: labels look like positions but are not
+        ix = {"kind": "labels", "values": rng.sample(range(n), n)}
     return {"cols": cols, "index": ix}
 
 
